@@ -88,7 +88,7 @@ example : action (fromTagString (sSensitive ++ [44, 98, 111, 103, 117, 115]) [])
 example : action (fromTagString [83, 101, 110, 115, 105, 116, 105, 118, 101] []) = .redact := by decide  -- "Sensitive"
 
 theorem filterFields_length (k : Keys) (ek : Option EventKeys) (ov : Overrides) :
-    ∀ (fs : List Field) (ls : List Leaf), filterFields k ek ov fs = some ls → ls.length = fs.length := by
+    ∀ (fs : List Field) (ls : List FOut), filterFields k ek ov fs = some ls → ls.length = fs.length := by
   intro fs
   induction fs with
   | nil => intro ls h; simp [filterFields] at h; subst h; rfl
@@ -104,30 +104,109 @@ theorem filterFields_length (k : Keys) (ek : Option EventKeys) (ov : Overrides) 
         simp [h1, h2] at h; subst h
         simp [ih ls' h2]
 
-/-- what one field may come out as -/
+/-- what a protected value may come out as -/
 def Protected (m : Nat) (l : Leaf) : Prop :=
   l = .redacted ∨ (∃ key, l = .enc key m) ∨ (∃ key s i, l = .mac key s i m)
 
-theorem filterOne_noleak (k : Keys) (ek : Option EventKeys) (ov : Overrides) (f : Field) (l : Leaf) (m : Nat)
+theorem filterLeaf_noleak (k : Keys) (ek : Option EventKeys) (a : Action) (m : Nat) (l : Leaf)
+    (ha : a ≠ .keep) (h : filterLeaf k ek a m = some l) : Protected m l := by
+  unfold filterLeaf at h
+  cases a with
+  | keep => exact absurd rfl ha
+  | redact => injection h with h; subst h; exact Or.inl rfl
+  | encrypt =>
+    cases hkey : keyFor k ek with
+    | none => simp [hkey] at h
+    | some key => simp [hkey] at h; subst h; exact Or.inr (Or.inl ⟨_, rfl⟩)
+  | hmac =>
+    cases hkey : keyFor k ek with
+    | none => simp [hkey] at h
+    | some key => simp [hkey] at h; subst h; exact Or.inr (Or.inr ⟨_, _, _, rfl⟩)
+  | error => cases h
+
+/-- a scalar string / []byte field not resolved to "keep" comes out protected -/
+theorem filterOne_noleak (k : Keys) (ek : Option EventKeys) (ov : Overrides) (f : Field) (o : FOut) (m : Nat)
     (hex : f.exported = true) (hk : f.kind = .str m ∨ f.kind = .bytes (some m))
-    (ha : action (fromTag f.tag ov) ≠ .keep) (h : filterOne k ek ov f = some l) : Protected m l := by
+    (ha : action (fromTag f.tag ov) ≠ .keep) (h : filterOne k ek ov f = some o) : ∃ l, o = .one l ∧ Protected m l := by
   unfold filterOne at h
   simp only [hex, Bool.not_true, Bool.false_eq_true, if_false] at h
   rcases hk with hk | hk <;> simp only [hk] at h <;>
-    (cases hact : action (fromTag f.tag ov) <;> simp only [hact] at h ha) <;>
-    first
-    | exact absurd rfl ha
-    | (injection h with h; subst h; exact Or.inl rfl)
-    | (cases hkey : keyFor k ek <;> simp [hkey] at h; subst h; first | exact Or.inr (Or.inl ⟨_, rfl⟩) | exact Or.inr (Or.inr ⟨_, _, _, rfl⟩))
-    | cases h
+    (cases hl : filterLeaf k ek (action (fromTag f.tag ov)) m with
+     | none => simp [hl] at h
+     | some l => simp [hl] at h; exact ⟨l, h.symm, filterLeaf_noleak k ek _ m l ha hl⟩)
+
+/-- every non-nil element of a filtered slice comes out protected, position by position -/
+theorem filterElems_noleak (k : Keys) (ek : Option EventKeys) (a : Action) (ha : a ≠ .keep) :
+    ∀ (ms : List (Option Nat)) (ls : List Leaf), filterElems k ek a ms = some ls →
+      ls.length = ms.length ∧ ∀ i (hi : i < ms.length) (hl : i < ls.length) (m : Nat), ms[i] = some m → Protected m (ls[i]) := by
+  intro ms
+  induction ms with
+  | nil => intro ls h; simp [filterElems] at h; subst h; exact ⟨rfl, fun i hi => by simp at hi⟩
+  | cons x rest ih =>
+    intro ls h
+    cases x with
+    | none =>
+      simp only [filterElems] at h
+      cases hr : filterElems k ek a rest with
+      | none => simp [hr] at h
+      | some ls' =>
+        simp [hr] at h; subst h
+        obtain ⟨hlen, hall⟩ := ih ls' hr
+        refine ⟨by simp [hlen], ?_⟩
+        intro i hi hl m hm
+        cases i with
+        | zero => simp at hm
+        | succ j => simp at hm ⊢; exact hall j (by simp at hi; omega) (by simp at hl; omega) m hm
+    | some m0 =>
+      simp only [filterElems] at h
+      cases hl0 : filterLeaf k ek a m0 with
+      | none => simp [hl0] at h
+      | some l0 =>
+        simp only [hl0] at h
+        cases hr : filterElems k ek a rest with
+        | none => simp [hr] at h
+        | some ls' =>
+          simp [hr] at h; subst h
+          obtain ⟨hlen, hall⟩ := ih ls' hr
+          refine ⟨by simp [hlen], ?_⟩
+          intro i hi hl m hm
+          cases i with
+          | zero => simp at hm ⊢; subst hm; exact filterLeaf_noleak k ek a m0 l0 ha hl0
+          | succ j => simp at hm ⊢; exact hall j (by simp at hi; omega) (by simp at hl; omega) m hm
+
+/-- a class-tagged []string / [][]byte field that is not public: every element is protected -/
+theorem slice_noleak (k : Keys) (ek : Option EventKeys) (ov : Overrides) (f : Field) (o : FOut) (ms : List (Option Nat))
+    (hex : f.exported = true) (hk : f.kind = .bss ms ∨ ∃ ss, f.kind = .strs ss ∧ ms = ss.map some)
+    (hpub : (fromTag f.tag ov).cls ≠ .pub) (ha : action (fromTag f.tag ov) ≠ .keep)
+    (h : filterOne k ek ov f = some o) :
+    ∃ ls, o = .many ls ∧ ls.length = ms.length ∧
+      ∀ i (hi : i < ms.length) (hl : i < ls.length) (m : Nat), ms[i] = some m → Protected m (ls[i]) := by
+  unfold filterOne at h
+  simp only [hex, Bool.not_true, Bool.false_eq_true, if_false] at h
+  rcases hk with hk | ⟨ss, hk, hms⟩
+  · simp only [hk, hpub, if_false] at h
+    cases he : filterElems k ek (action (fromTag f.tag ov)) ms with
+    | none => simp [he] at h
+    | some ls =>
+      simp [he] at h
+      obtain ⟨h1, h2⟩ := filterElems_noleak k ek _ ha ms ls he
+      exact ⟨ls, h.symm, h1, h2⟩
+  · simp only [hk, hpub, if_false] at h
+    cases he : filterElems k ek (action (fromTag f.tag ov)) (ss.map some) with
+    | none => simp [he] at h
+    | some ls =>
+      simp [he] at h
+      subst hms
+      obtain ⟨h1, h2⟩ := filterElems_noleak k ek _ ha (ss.map some) ls he
+      exact ⟨ls, h.symm, h1, h2⟩
 
 /-- **No leak (flat structs, any number of fields).** If Process forwards a filtered copy, every
 exported string / []byte field not resolved to "keep" is redacted, encrypted or HMAC-ed. -/
 theorem flat_noleak (k : Keys) (ek : Option EventKeys) (ov : Overrides) :
-    ∀ (fs : List Field) (ls : List Leaf), filterFields k ek ov fs = some ls →
+    ∀ (fs : List Field) (ls : List FOut), filterFields k ek ov fs = some ls →
       ∀ i (hi : i < fs.length) (hl : i < ls.length) (m : Nat), (fs[i]).exported = true →
         ((fs[i]).kind = .str m ∨ (fs[i]).kind = .bytes (some m)) → action (fromTag (fs[i]).tag ov) ≠ .keep →
-        Protected m (ls[i]) := by
+        ∃ l, ls[i] = .one l ∧ Protected m l := by
   intro fs
   induction fs with
   | nil => intro ls _ i hi; simp at hi
@@ -147,28 +226,57 @@ theorem flat_noleak (k : Keys) (ek : Option EventKeys) (ov : Overrides) :
           simp at hex hk ha ⊢
           exact ih ls' h2 j (by simp at hi; omega) (by simp at hl; omega) m hex hk ha
 
+theorem filterFields_none_of_mem (k : Keys) (ek : Option EventKeys) (ov : Overrides) (f : Field)
+    (hone : filterOne k ek ov f = none) : ∀ fs, f ∈ fs → filterFields k ek ov fs = none := by
+  intro fs
+  induction fs with
+  | nil => intro h; simp at h
+  | cons g gs ih =>
+    intro h
+    unfold filterFields
+    rw [List.mem_cons] at h
+    rcases h with h | h
+    · subst h; simp [hone]
+    · simp [ih h]
+
 /-- **Fails closed.** A field whose operation cannot be carried out (unknown operation, or encrypt /
-hmac without any wrapper) makes Process return an error — never a partly filtered copy. -/
+hmac without any wrapper) makes Process return an error — never a partly filtered copy.  This holds
+for scalar fields and for *any* element of a []string / [][]byte field, wherever it sits in the slice. -/
 theorem fail_closed (k : Keys) (ek : Option EventKeys) (fails : Bool) (ov : Overrides) (fs : List Field) (f : Field)
-    (hf : f ∈ fs) (hex : f.exported = true) (m : Nat) (hk : f.kind = .str m)
+    (hf : f ∈ fs) (hex : f.exported = true) (m : Nat)
+    (hk : f.kind = .str m ∨ f.kind = .bytes (some m) ∨
+      ((fromTag f.tag ov).cls ≠ .pub ∧ ((∃ ms, f.kind = .bss ms ∧ some m ∈ ms) ∨ (∃ ss, f.kind = .strs ss ∧ m ∈ ss))))
     (hbad : action (fromTag f.tag ov) = .error ∨
       ((action (fromTag f.tag ov) = .encrypt ∨ action (fromTag f.tag ov) = .hmac) ∧ keyFor k ek = none)) :
     ∀ ls, processFlat k ek fails ov fs ≠ .filtered ls := by
+  have hleaf : filterLeaf k ek (action (fromTag f.tag ov)) m = none := by
+    unfold filterLeaf
+    rcases hbad with h | ⟨h | h, hkey⟩ <;> simp [h, *]
+  have helems : ∀ ms : List (Option Nat), some m ∈ ms → filterElems k ek (action (fromTag f.tag ov)) ms = none := by
+    intro ms
+    induction ms with
+    | nil => intro h; simp at h
+    | cons x rest ih =>
+      intro h
+      rw [List.mem_cons] at h
+      cases x with
+      | none =>
+        rcases h with h | h
+        · cases h
+        · simp [filterElems, ih h]
+      | some m0 =>
+        simp only [filterElems]
+        rcases h with h | h
+        · injection h with h; subst h; simp [hleaf]
+        · cases filterLeaf k ek (action (fromTag f.tag ov)) m0 <;> simp [ih h]
   have hone : filterOne k ek ov f = none := by
     unfold filterOne
-    simp only [hex, Bool.not_true, Bool.false_eq_true, if_false, hk]
-    rcases hbad with h | ⟨h | h, hkey⟩ <;> simp [h, *]
-  have hall : ∀ fs, f ∈ fs → filterFields k ek ov fs = none := by
-    intro fs
-    induction fs with
-    | nil => intro h; simp at h
-    | cons g gs ih =>
-      intro h
-      unfold filterFields
-      rw [List.mem_cons] at h
-      rcases h with h | h
-      · subst h; simp [hone]
-      · simp [ih h]
+    simp only [hex, Bool.not_true, Bool.false_eq_true, if_false]
+    rcases hk with hk | hk | ⟨hp, ⟨ms, hk, hm⟩ | ⟨ss, hk, hm⟩⟩
+    · simp [hk, hleaf]
+    · simp [hk, hleaf]
+    · simp [hk, hp, helems ms hm]
+    · simp [hk, hp, helems (ss.map some) (List.mem_map.mpr ⟨m, hm, rfl⟩)]
   intro ls
   unfold processFlat
   split
@@ -177,6 +285,6 @@ theorem fail_closed (k : Keys) (ek : Option EventKeys) (fails : Bool) (ov : Over
   · simp
   split
   · simp
-  · simp [hall fs hf]
+  · simp [filterFields_none_of_mem k ek ov f hone fs hf]
 
 end Evl.C09
